@@ -1,4 +1,6 @@
 mod g_adss;
+mod g_codec;
+mod g_star;
 mod g_fp;
 mod g_sharks;
 mod layout;
@@ -24,6 +26,16 @@ fn main() {
       match prop {
         "C16" => g_adss::gen(seed, thorough, only, &mut out),
         "C06" => g_sharks::gen(seed, thorough, only, &mut out),
+        "C01" => g_star::gen_c01(seed, thorough, only, &mut out),
+        "C02" => g_star::gen_c02(seed, thorough, only, &mut out),
+        "C03" => g_star::gen_c03(seed, thorough, only, &mut out),
+        "C04" => g_star::gen_c04(seed, thorough, only, &mut out),
+        "C05" => g_star::gen_c05(seed, thorough, only, &mut out),
+        "C08" => g_codec::gen(seed, thorough, only, &mut out),
+        "C09" => {
+          g_codec::gen(seed ^ 0x9, thorough, only, &mut out);
+          g_codec::gen_degenerate(seed, thorough, &mut out);
+        }
         "C07" => g_fp::gen(seed, thorough, only, &mut out),
         _ => {
           eprintln!("unknown property {}", prop);
